@@ -260,6 +260,13 @@ def iso_req(q, rng, keys, fail="", plain=False):
                         "ExecuteSelectedRulesWithControlAndStopTagAsGivenSortedName", "ExecuteWithStopTagDirect"])
         r.update(call_for(m, ["own", "pa", "pb", "pc", "pd", "pe"], 6))
         r.update(b=False, fail=rng.choice(["boom", "boom", ""]), tag=True)
+    elif x < 0.28:
+        # stop on the first error in a concurrent first stage: `pa` fails at once (its key is not injected) while `own` of
+        # the same stage is still inside its body; the call returns - and gives its instance up - only when `own` is over
+        m = rng.choice(["ExecuteNConcurrentMSort", "ExecuteNConcurrentMConcurrent", "ExecuteSelectedNConcurrentMSort",
+                        "ExecuteSelectedNConcurrentMConcurrent"])
+        r.update(call_for(m, ["own", "pa", "pb", "pc", "pd", "pe"], 6))
+        r.update(n=3, m=3, b=False, fail="", keys=[k for k in keys if k != "ka"])
     return r
 
 
